@@ -255,6 +255,128 @@ theorem fsm_initial_transition_is_an_event (dlv : Dlv) (b : Blk) (d : Nat) (s : 
   unfold initFromValue
   simp [hk, hu]
 
+/-! ### Repeat blocks: the forward from inside the handler, the repetitions from the main task
+
+`guard_balanced`, `no_nested_handling`, `refusal_stops_simulation`, `fuel_suffices` above are stated for every
+circuit – Repeat blocks included (`BKind.repeat`: `callHandler` runs `repeatEvent` inside the block's handler
+frame; the inductions of EdzedProofs/Dispatch.lean go through it).  What follows is specific to Repeat. -/
+
+/-- `Repeat._event` forwards the event with the block's own guard SET: the state in which the destination
+    is entered has `_event_active` of the Repeat block true whenever the handler was entered by `deliver`;
+    hence a destination chain that leads back to the Repeat block – or a sender that is still busy – is
+    refused like any other recursion (`recursion_is_refused_and_aborts`): the forward is one step of the
+    ordinary `sendEdges` on the single edge `Event(dest, etype)`, run between `set_output(0)` and the queuing -/
+theorem repeat_forwards_inside_handler (dlv : Dlv) (b : Blk) (d : Nat) (s : St) (data : Data) :
+    repeatEvent dlv b d s b.retype data =
+      andThen (setOutput dlv b d s (.int 0)) fun s1 =>
+      andThen (sendEdges dlv d s1 [repeatEdge b] (withRepeat (withOrigSource data) 0)) fun s2 =>
+      ({ s2 with rcur := upd s2.rcur d (some (withOrigSource data, 0)) }, .ret .none) := by
+  unfold repeatEvent
+  simp
+
+/-- … and while the forward runs the Repeat block is locked and its handler frame is on the stack (for every
+    state the handler can be in): the guard is untouched by `set_output(0)` and everything it triggers -/
+theorem repeat_is_locked_during_forward (c : Circ) (fuel : Nat) (b : Blk) (d : Nat) (s : St) (v : Val)
+    (ha : s.active d = true) : (setOutput (deliver c fuel) b d s v).1.active d = true := by
+  rw [(setOutput_frm (deliver_frm c fuel) b d s v).active]; exact ha
+
+/-- a forward that fails (refused recursion, unknown type, parameter error, error in the destination) leaves
+    `Repeat._event` before `self._queue.put_nowait(data)`: nothing is queued, nothing will be repeated
+    (the dispatch-level form of C18's `translated_refused_forward_queues_nothing`) -/
+theorem repeat_failed_forward_queues_nothing (dlv : Dlv) (b : Blk) (d : Nat) (s : St) (et : EType)
+    (data : Data) (x : Exc) (h : (repeatEvent dlv b d s et data).2 = .exc x) :
+    (repeatEvent dlv b d s et data).1 = (setOutput dlv b d s (.int 0)).1 ∨
+    (repeatEvent dlv b d s et data).1 =
+      (sendEdges dlv d (setOutput dlv b d s (.int 0)).1 [repeatEdge b] (withRepeat (withOrigSource data) 0)).1 := by
+  unfold repeatEvent at h ⊢
+  split at h
+  · cases h
+  · simp only [andThen] at h ⊢
+    split at h
+    · left; split <;> simp_all
+    · split at h
+      · right
+        split <;> simp_all
+      · cases h
+
+/-- an event of another type is ignored (logged once): no output change, nothing sent, nothing queued -/
+theorem repeat_other_event_is_ignored (dlv : Dlv) (b : Blk) (d : Nat) (s : St) (et : EType) (data : Data)
+    (h : et ≠ b.retype) : repeatEvent dlv b d s et data = (s, .ret .none) := by
+  unfold repeatEvent
+  simp [h]
+
+/-- **A repetition is a fresh top-level delivery**: the main task sends it from outside of every handler.
+    It starts from the very flags of the idle circuit (all `_event_active` false, no `event()` frame: the
+    state handed to `resendBody` is `s` with only the repetition counter updated) and leaves them false –
+    whatever happened (handled, refused somewhere down the chain, failed; then the task's monitor aborts) -/
+theorem repeat_resend_is_top_level (c : Circ) (s : St) (d : Nat) (p : St × Res) (h : Idle s)
+    (hr : resend c s d = some p) :
+    Idle p.1 ∧ ∃ b data rep, c.blocks[d]? = some b ∧ b.kind = .repeat ∧ s.rcur d = some (data, rep) ∧
+      repeatGoesOn b rep = true ∧
+      p = taskOutcome d (resendBody (deliver c c.fuel) b d s data (rep + 1)) ∧
+      Idle { s with rcur := upd s.rcur d (some (data, rep + 1)) } := by
+  refine ⟨h.of_frm (resend_frm c s d p hr), ?_⟩
+  unfold resend at hr
+  split at hr
+  · rename_i b data rep hb hc
+    split at hr
+    · rename_i hk
+      simp only [Bool.and_eq_true, decide_eq_true_eq] at hk
+      cases hr
+      exact ⟨b, data, rep, hb, hk.1, hc, hk.2, rfl, h⟩
+    · cases hr
+  · cases hr
+
+/-- every handler entered during a repetition has nesting depth 1 -/
+theorem no_nested_handling_resend (c : Circ) (s : St) (d : Nat) (p : St × Res) (h : Idle s)
+    (ht : s.trace = []) (hr : resend c s d = some p) : ∀ t ∈ p.1.trace, t.ok :=
+  (resend_good c s d p hr ⟨h.inv, by intro t; simp [ht]⟩).2
+
+/-- if the chain of a repetition loops back (to the Repeat block, which is inside its handler again when it
+    forwards, or to any other busy block) the event is refused and the simulation stopped -/
+theorem refusal_stops_simulation_resend (c : Circ) (s : St) (d : Nat) (p : St × Res) (ht : s.trace = [])
+    (hr : resend c s d = some p) (x : Nat) (hx : TItem.refused x ∈ p.1.trace) : p.1.error.isSome :=
+  resend_refAbort c s d p hr (by intro ⟨y, hy⟩; simp [ht] at hy) ⟨x, hx⟩
+
+/-- an exception that ends the main task stops the simulation (`AddonAsync._task_monitor`) and ends the
+    repetitions of the block -/
+theorem failed_resend_aborts (d : Nat) (p : St × Res) (x : Exc) (h : p.2 = .exc x) (hx : x ≠ .outOfFuel) :
+    (taskOutcome d p).1.error.isSome ∧ (taskOutcome d p).1.rcur d = Option.none ∧
+    (taskOutcome d p).2 = .exc x := by
+  obtain ⟨s', r⟩ := p
+  simp only at h
+  subst h
+  cases x <;> first
+    | exact absurd rfl hx
+    | exact ⟨abort_error _ _, by simp [taskOutcome, upd], rfl⟩
+
+/-- the repetitions end with the simulation task (`AddonMainTask.stop_async`) -/
+theorem no_resend_after_stop (c : Circ) (s : St) (d : Nat) : resend c (stopAll s) d = Option.none := by
+  unfold resend stopAll
+  split <;> simp_all
+
+/-- the fuel suffices for a repetition as well -/
+theorem fuel_suffices_resend (c : Circ) (s : St) (d : Nat) (p : St × Res) (hr : resend c s d = some p) :
+    p.2 ≠ .exc .outOfFuel := by
+  unfold resend at hr
+  split at hr
+  · split at hr
+    · cases hr
+      rename_i b data rep _ _ _
+      have hK : ∀ s' : St, phi c.n s' < c.fuel := fun s' => by
+        unfold Circ.fuel; have := phi_le c.n s'; omega
+      have h1 : NoOOF (resendBody (deliver c c.fuel) b d s data (rep + 1)) := by
+        unfold resendBody
+        exact andThen_G (setOutput_G (kclosed_phi c.n c.fuel) (deliver_frm c _) (deliver_G c _) _ _ _ _ (hK _))
+          (sendEdges_G (kclosed_phi c.n c.fuel) (deliver_frm c _) (deliver_G c _) _ _ _ _ (hK _))
+      generalize resendBody (deliver c c.fuel) b d s data (rep + 1) = q at h1
+      obtain ⟨s', r⟩ := q
+      cases r with
+      | ret v => simp [taskOutcome]
+      | exc y => cases y <;> simp_all [taskOutcome, NoOOF]
+    · cases hr
+  · cases hr
+
 /-! ### fuel_suffices -/
 
 /-- The nesting depth of `event()` calls is bounded by the circuit: with `phi s` = number of blocks
@@ -356,6 +478,62 @@ example : (rawSend exFsmLoop exFsmReady 0 (.name "e0") []).2 = .exc .circuitErro
     ∧ (rawSend exFsmLoop exFsmReady 0 (.name "e0") []).1.error = some .circuitError
     ∧ (rawSend exFsmLoop exFsmReady 0 (.name "e0") []).1.active 0 = false
     ∧ (rawSend exFsmLoop exFsmReady 0 (.name "e0") []).1.fsmActive 0 = false := by decide +kernel
+
+/-- A -> Repeat -> A: Input b0 sends its output to the Repeat b1 whose destination is b0: the forward
+    (from inside b1's handler, b0 still busy) is refused, the simulation stopped, nothing queued, nothing locked -/
+def exRepLoop : Circ :=
+  ⟨[{ kind := .input, onOutput := [⟨1, .name "put", []⟩] }, { kind := .repeat, rdest := 0 }]⟩
+
+example : (rawSend exRepLoop exReady 0 (.name "put") [("value", .int 1)]).2 = .exc .circuitError
+    ∧ (rawSend exRepLoop exReady 0 (.name "put") [("value", .int 1)]).1.error = some .circuitError
+    ∧ ((rawSend exRepLoop exReady 0 (.name "put") [("value", .int 1)]).1.rcur 1).isNone = true
+    ∧ (rawSend exRepLoop exReady 0 (.name "put") [("value", .int 1)]).1.active 0 = false
+    ∧ (rawSend exRepLoop exReady 0 (.name "put") [("value", .int 1)]).1.active 1 = false
+    ∧ (rawSend exRepLoop exReady 0 (.name "put") [("value", .int 1)]).1.trace.length = 5 := by decide +kernel
+
+/-- a Repeat repeating to itself: a recursion on the Repeat block, refused at the forward -/
+def exRepSelf : Circ := ⟨[{ kind := .repeat, rdest := 0 }]⟩
+
+example : (rawSend exRepSelf exReady 0 (.name "put") []).2 = .exc .circuitError
+    ∧ (rawSend exRepSelf exReady 0 (.name "put") []).1.error = some .circuitError
+    ∧ (rawSend exRepSelf exReady 0 (.name "put") []).1.active 0 = false := by decide +kernel
+
+/-- Repeat b0 -> Input b1: forwarded and queued; then two repetitions, each a top-level delivery entering
+    b1's handler at depth 1; with count = 2 there is no third one; the hypotheses of
+    `repeat_resend_is_top_level` / `no_nested_handling_resend` hold in the state after the first event -/
+def exRepOk : Circ := ⟨[{ kind := .repeat, rdest := 1, rcount := some 2 }, { kind := .input }]⟩
+
+def exRepQueued : St := { (rawSend exRepOk exReady 0 (.name "put") [("value", .int 7)]).1 with trace := [] }
+
+example : Idle exRepQueued ∧ exRepQueued.trace = [] ∧ exRepQueued.out 1 = .int 7
+    ∧ (exRepQueued.rcur 0).isSome = true ∧ (resend exRepOk exRepQueued 0).isSome = true := by
+  refine ⟨⟨fun d => ?_, ?_⟩, rfl, ?_, ?_, ?_⟩
+  · have := congrFun (guard_balanced exRepOk exRepOk.fuel exReady 0 (.name "put") [("value", .int 7)]) d
+    exact this
+  · exact (deliver_frm exRepOk exRepOk.fuel exReady 0 (.name "put") [("value", .int 7)]).stack
+  all_goals decide +kernel
+
+example :
+    ((resend exRepOk exRepQueued 0).map fun p => (p.2, p.1.out 0, p.1.error, p.1.trace.length, p.1.active 1))
+      = some (.ret .none, .int 1, Option.none, 2, false)
+    ∧ (((resend exRepOk exRepQueued 0).bind fun p => resend exRepOk { p.1 with trace := [] } 0).map
+        fun q => (q.1.out 0, (resend exRepOk q.1 0).isNone)) = some (.int 2, true) := by decide +kernel
+
+/-- the loop is met by the repetition only: the repetition's own output event (0 -> 1, filtered at the
+    forward by `value` = 0 being false) reaches a probe that sends to the Repeat block … which forwards to
+    the Counter; no recursion here – but with the probe sending to itself it is refused: a failed repetition
+    aborts (`failed_resend_aborts`) -/
+def exRepLate : Circ :=
+  ⟨[{ kind := .repeat, rdest := 1, retype := .name "inc", onOutput := [⟨2, .name "a", [.ifValue]⟩] },
+    { kind := .counter, initdef := .int 0 },
+    { scriptA := [.send 0 Option.none], extra := [⟨2, .name "b", []⟩], scriptB := [.send 0 Option.none] }]⟩
+
+example :
+    let s1 : St := { (rawSend exRepLate { exReady with out := fun _ => .int 0 } 0 (.name "inc") []).1 with trace := [] }
+    s1.error = Option.none ∧
+    ((resend exRepLate s1 0).map fun p => (p.2, p.1.error, (p.1.rcur 0).isNone, p.1.active 2,
+        p.1.trace.any (fun t => match t with | .refused 2 => true | _ => false)))
+      = some (.exc .circuitError, some .circuitError, true, false, true) := by decide +kernel
 
 /-- `Idle`, `Inv`, `TraceOk` are satisfiable: the start state -/
 example : Idle exReady ∧ Inv exReady ∧ TraceOk exReady :=
@@ -498,6 +676,34 @@ theorem translated_eventcond_loop_is_resolve (c : Circ) (fuel : Nat) (b : Blk) (
           | Option.none => .ret Val.none
           | some e => .next e) :=
   loop_is_resolve c fuel b d stk0 data n et s hn het
+
+/-! #### `Repeat._event` (translated for C18 by tools/py2lean_repeat.py into `Gen.TrR.repeatEventActs`) -/
+
+/-- **The dispatch model's `repeatEvent` IS `Repeat._event` as translated from the current source**: the
+    action list generated from the method (type test, `orig_source`, `set_output(0)`, the forward with
+    `repeat=0`, and the queuing AFTER it), run with the dispatch meaning of the actions (`runRepActs`:
+    `set_output` and the forward are the model's `setOutput` / `sendEdges`, i.e. they run inside the handler
+    frame with the guard set), computes exactly `repeatEvent` – for every delivery function, block, state,
+    event type and data.  An edit of the method (queue before forwarding, no forward, another order) changes
+    the generated list and breaks this theorem. -/
+theorem translated_repeat_event_is_dispatch_model (dlv : Dlv) (b : Blk) (d : Nat) (s : St) (et : EType)
+    (data : Data) :
+    runRepActs dlv b d s data (Gen.TrR.repeatEventActs (et != b.retype)) = repeatEvent dlv b d s et data := by
+  unfold repeatEvent Gen.TrR.repeatEventActs
+  by_cases h : (et != b.retype) = true
+  · simp [h, runRepActs]
+  · simp only [h, Bool.false_eq_true, if_false, runRepActs, withOrigSource]
+    rfl
+
+/-- the repetition of the main task as translated (`Gen.TrR.maintaskIter`, timeout with an empty queue):
+    `repeat + 1`, `set_output(repeat)` then the send – the two actions `resendBody` performs, in this order,
+    and repeating goes on exactly while `repeatGoesOn` -/
+theorem translated_repeat_maintask_resend_is_dispatch_model (b : Blk) (rep : Nat) :
+    Gen.TrR.maintaskIter b.rcount true rep (.timeout true) =
+      some ⟨false, rep + 1, [.setOutput (rep + 1), .send (rep + 1)], repeatGoesOn b (rep + 1), false⟩ := by
+  unfold Gen.TrR.maintaskIter repeatGoesOn
+  simp
+  cases b.rcount <;> simp
 
 /-! non-vacuity: concrete deliveries evaluated through BOTH the translated program and the model -/
 
